@@ -49,3 +49,17 @@ impl palette::angle::SignedAngle for Tag {
 impl palette::angle::UnsignedAngle for Tag {
     fn normalize_unsigned_angle(self) -> Self { self.nu() }
 }
+impl core::ops::Add for Tag {
+    type Output = Tag;
+    fn add(self, o: Tag) -> Tag { Tag(self.0.wrapping_mul(3).wrapping_add(o.0)) }
+}
+impl core::ops::Sub for Tag {
+    type Output = Tag;
+    fn sub(self, o: Tag) -> Tag { Tag(self.0.wrapping_mul(5).wrapping_sub(o.0)) }
+}
+impl core::ops::AddAssign for Tag {
+    fn add_assign(&mut self, o: Tag) { *self = *self + o; }
+}
+impl core::ops::SubAssign for Tag {
+    fn sub_assign(&mut self, o: Tag) { *self = *self - o; }
+}
